@@ -832,6 +832,7 @@ var syntaxZoo = []string{
 	"x=a.if\ny=a.new\nz=a.typeof\n++x\nw=o.in\n[1].length",
 	"for(var i=a?b in c:d;;)break;for(i=a?(b in c):d,j=e?f in g?1:2:3;;)break;",
 	"a=1/*\n*/b=2\nc=3/* x */\nd=4/*\r\n*/++a\nreturn_=5/**/\n",
+	"a?b:c=1;a&&b++;(y)=1;(a.b)++;x=y=z;(a[b])+=1;for(a.b in o);for(a[0] in o);for((c) in o);",
 	"for(var i=f(k in o),j=o[k in o];i<1;i++);for(x=(k in o);;)break;for(var q=[k in o];;)break;for(var r=function(){return k in o};;)break;for(var s={p:k in o};;)break;",
 	"var b٣={},é={},e\u0301x=1,a‿b=2,ⅷ=3;b٣.x٣=1;é.e\u0301=b٣.x٣;é.a‿b=b٣.ⅷ;",
 	"o.\\u0061b=1;o.a\\u0062c=2;o.if=o.new.typeof;o.$_=o._$9;",
@@ -848,7 +849,10 @@ var invalidAnywhere = []string{
 	"x=\"abc\n\";", "x=1e;", "x=0x;",
 	"for(x=1\nx<3;x++);", "for(var i=0\ni<1;i++);", "switch(1){default:case 1:default:}", "switch(1){case 1:default:;default:}",
 	"x=({+:1});", "x={0x:1};", "x={*:2,a:1};", "x={a:1,-:2};",
-	"x=/(?</;", "x=/a(?<!/;", "x=/(?<=/;", "x&^=1;", "x=a&^b;",  "x=/(?</g;", "x=/\\/;", "x=/[\\\n]/;", "x=/a\\\n/;", "x=/[a\\\r\n]/;", "x=/[\\\u2028]/;",
+	"x=/(?</;", "x=/a(?<!/;", "x=/(?<=/;", "x&^=1;", "x=a&^b;",
+	// invalid assignment targets (ES5 allows them to be reported early, section 16; otto does)
+	"f()++;", "f()--;", "++f();", "--f();", "f()=1;", "f()+=1;", "for(f() in o);", "(a,b)=1;", "(a+b)++;", "x++ ++;", "++x++;", "new f()++;", "new f=1;", "a.b()++;", "(a?b:c)=1;", "typeof x=1;", "-x=1;", "x++=1;", "'s'=1;", "null=1;", "true++;", "[a]=1;", "({a:1})=1;", "(function(){})++;", "delete x=1;", "void 0=1;", "a||b=1;", "for(a+b in o);", "for(1 in o);", "for(var a,b in o);",
+	"x=/(?</g;", "x=/\\/;", "x=/[\\\n]/;", "x=/a\\\n/;", "x=/[a\\\r\n]/;", "x=/[\\\u2028]/;",
 	"x=1e3in{};", "x=.5E-2instanceof Object;", "x=0e0in[];", "x=3in[];", "x=01a;", "x=0x3in[];", "x=1.5a;", "x=1.e;",
 	"a:if(1){while(1){continue a;}}", "a:{b:for(;;){continue a;}}", "function g(){a:switch(1){case 1:for(;;){continue a}}}",
 	"a:{continue a;}", "a:switch(1){case 1:continue a;}", "for(;;){(function(){continue;})()}", "while(1){(function(){break;})()}",
